@@ -32,6 +32,7 @@ def sweep_cfg(expr, proc="FloatValueDataSource", var="t", vals=(1.0, 2.0, 3.0)):
 
 MIN_A = [sweep_cfg("2*t"), sweep_cfg("3*t"), sweep_cfg("2*t", "FloatValueDataSourceWithDefault")]
 MIN_B = [sweep_cfg("expr*2", var="expr"), sweep_cfg("expr*2", var="expr", vals=(1.0, 2.0, 4.0))]
+MIN_B2 = [sweep_cfg("preprocessor_view*2", var="preprocessor_view"), sweep_cfg("preprocessor_view*2", var="preprocessor_view", vals=(1.0, 2.0, 4.0))]
 
 
 def load_corpus():
@@ -57,7 +58,9 @@ def judge(ck, op, pos, nodes, mut, a, b, reserved=False):
         if op.startswith("sweep.") and not same_cfg:
             ck.fail_input(SIG_A, "mutation %s leaves the pipeline semantic id unchanged (config id and node semantic id do change): "
                           "the semantic id hashes name/node_uuid/payload_from only and the uuid of a sweep node does not depend on the sweep" % op, rep)
-        elif not reserved:
+        elif reserved:
+            ck.fail_input(SIG_B, "changing the domain of a sweep variable named like a sanitised metadata field leaves the semantic id unchanged", rep)
+        else:
             ck.fail_input("C05:%s:semantic_id-unchanged" % op, "mutation %s at %s leaves the semantic id unchanged" % (op, pos), rep)
     return ok
 
@@ -141,6 +144,11 @@ def run(ck):
     add_case("reserved/expr", MIN_B[0], b[0])
     add_case("reserved/expr'", MIN_B[1], b[1])
     judge(ck, "sweep.variable_domain", "variable named expr", MIN_B[0], MIN_B[1], b[0], b[1], reserved=True)
+    b2 = [G.observe(c, runs=0) for c in MIN_B2]
+    evaluations += 2
+    add_case("reserved/preprocessor_view", MIN_B2[0], b2[0])
+    add_case("reserved/preprocessor_view'", MIN_B2[1], b2[1])
+    judge(ck, "sweep.variable_domain", "variable named preprocessor_view", MIN_B2[0], MIN_B2[1], b2[0], b2[1], reserved=True)
 
     per_shard = 60
     shards, spans = [], []
